@@ -160,6 +160,7 @@ func init() {
 			{Name: "offender-position", N: c02OffN, Run: c02Offender, Exhaustive: true},
 			{Name: "numeric-boundaries", N: c02NumBoundN, Run: c02NumBound, Exhaustive: true},
 			{Name: "case-mapping", N: casedN, Run: c02CaseMap, Exhaustive: true},
+			{Name: "to_string-roundtrip", N: tsN, Run: tsRun, Exhaustive: true},
 		},
 	})
 }
